@@ -201,6 +201,9 @@ func init() {
 		for _, s := range gridShutdown() {
 			engine.ExploreS(ctx, scenarioTCP(s, -1), engine.SConfig{Bound: bound, Shard: ctx.Shard, NShards: ctx.NShards, Deadline: ctx.Deadline})
 		}
+		for _, sc := range udpScenarios() {
+			engine.ExploreS(ctx, sc, engine.SConfig{Bound: bound, Shard: ctx.Shard, NShards: ctx.NShards, Deadline: ctx.Deadline})
+		}
 	})
 	hk.Replayers["C18"] = func(ctx *engine.Ctx, rp engine.Replay) []*engine.Finding {
 		switch rp.Unit {
